@@ -188,6 +188,26 @@ class ServerWorld:
             return e.cb[0]
         return None
 
+    def dyn_entry(self, index, sub):
+        """Member `sub` of an array that the dictionary does not list: the library's ODArray
+        creates it on demand from the array's first member (data type, access type, default -
+        not the parameter value).  Returns the model entry (created on first use) or None."""
+        e = self.entries.get((index, sub))
+        if e is not None:
+            return e
+        t = self.entries.get((index, 1))
+        if t is None or t.kind != "array" or not 0 < sub < 256:
+            return None
+        e = Entry()
+        e.index, e.sub, e.dtype, e.access = index, sub, t.dtype, t.access
+        e.default = t.default
+        e.value = e.cb = e.stored = None
+        e.kind = "array"
+        e.name = "dyn%d" % sub
+        e.odvar = None
+        self.entries[(index, sub)] = e
+        return e
+
     def store_snapshot(self):
         return {(i, s): bytes(d) for i, subs in self.local.data_store.items() for s, d in subs.items()}
 
